@@ -33,6 +33,10 @@ CONFIG = {
     },
 }
 
+# wire inputs made of a fixed header followed by fixed-width operation records can be shrunk by ./check
+# (delta debugging over the records) before a replay is written
+SHRINK = {"C04": (1, 3), "C05": (2, 2), "C06": (2, 2), "C07": (2, 3), "C10": (0, 3), "C19": (2, 3), "C08": (4, 5)}
+
 # per-property overrides/additions: tools/propcfg.d/Cxx.json (same keys as above)
 import glob as _glob, json as _json, os as _os
 for _f in sorted(_glob.glob(_os.path.join(_os.path.dirname(_os.path.abspath(__file__)), "propcfg.d", "C*.json"))):
@@ -40,3 +44,5 @@ for _f in sorted(_glob.glob(_os.path.join(_os.path.dirname(_os.path.abspath(__fi
     _d = _json.load(open(_f))
     CONFIG.setdefault(_pid, {}).update(_d)
     CONFIG[_pid].setdefault("props", ["theories/%s_Props.v" % _pid])
+for _pid, (_h, _w) in SHRINK.items():
+    CONFIG.setdefault(_pid, {}).setdefault("shrink", {"header": _h, "width": _w})
